@@ -17,7 +17,16 @@ func sdStages(props string, quickChildren, quickCases, thChildren, thCases int) 
 		if tier == "thorough" {
 			ch, cs = thChildren, thCases
 		}
-		return []Stage{{Name: "sd", Scenario: "storediff", Args: "props=" + props, Children: ch, Cases: cs, Timeout: 25 * time.Minute}}
+		st := []Stage{{Name: "sd", Scenario: "storediff", Args: "props=" + props, Children: ch, Cases: cs, Timeout: 25 * time.Minute}}
+		if props == "C01" || props == "C02" || props == "C03" {
+			// the same oracle over HTTP through the real router of the assembled application
+			hc, hn := 4, 4
+			if tier == "thorough" {
+				hc, hn = 16, 40
+			}
+			st = append(st, Stage{Name: "http", Scenario: "storehttp", Args: "props=" + props, Children: hc, Cases: hn, Timeout: 25 * time.Minute})
+		}
+		return st
 	}
 }
 
